@@ -117,11 +117,60 @@ func clip(b []byte) string {
 	return string(b)
 }
 
-func (x *run) invalidateViews(root *mroot, except *obj) {
+// invalidateViews stops comparing the bytes of views after their root was resized (whether they still
+// alias is implementation specific). What is not implementation specific: a view is its own header,
+// so resizing the root never changes the length a view was created with.
+func (x *run) invalidateViews(root *mroot, except *obj, sig, after string) {
 	for _, o := range x.objs {
-		if o.root == root && o != except && o.view {
+		if o.root == root && o != except && o.view && o.valid {
+			l := -1
+			x.guard(sig, "Len of "+o.name+" after "+after, func() { l = o.impl.Len() })
+			if l != o.n {
+				x.r.Fail("length", sig+":view-length-follows-parent", fmt.Sprintf("after %s the view %s has length %d; it was created with length %d", after, o.name, l, o.n))
+			}
 			o.valid = false
 		}
+	}
+}
+
+// resizeView: Grow/Truncate applied to a view. Only lengths are judged: the view takes its new length,
+// the blob it was taken from (and every other object) keeps its own; afterwards the whole family is
+// left out of the byte comparison.
+func (x *run) resizeView(o *obj, k string, arg int, sigBase string) {
+	what := fmt.Sprintf("%s.%s(%d) [view, len %d]", o.name, k, arg, o.n)
+	var err error
+	x.guard(sigBase+":view", what, func() {
+		if k == "Grow" {
+			err = blob.Grow(o.impl, int64(arg))
+		} else {
+			err = blob.Truncate(o.impl, int64(arg))
+		}
+	})
+	x.r.Logf("%d %s -> err=%v", x.step, what, err)
+	if err != nil {
+		return
+	}
+	want := o.n + arg
+	if k == "Truncate" {
+		want = o.n
+		if arg < o.n {
+			want = arg
+		}
+	}
+	for _, p := range x.objs {
+		if !p.valid || p.root != o.root {
+			continue
+		}
+		l := -1
+		x.guard(sigBase+":view", "Len of "+p.name+" after "+what, func() { l = p.impl.Len() })
+		exp := p.n
+		if p == o {
+			exp = want
+		}
+		if l != exp {
+			x.r.Fail("length", sigBase+":view:resize-leaks-to-other-object", fmt.Sprintf("after %s: %s.Len() = %d, expected %d (a view and the blob it was taken from have independent lengths)", what, p.name, l, exp))
+		}
+		p.valid = false
 	}
 }
 
@@ -162,6 +211,9 @@ func (x *run) op() {
 	switch k {
 	case "View", "Slice":
 		o := x.pickObj(nil)
+		if o == nil {
+			return
+		}
 		start, end := x.arg(o.n), x.arg(o.n)
 		inRange := start >= 0 && end >= start && end <= o.n
 		what := fmt.Sprintf("%s.%s(%d, %d) [len %d]", o.name, k, start, end, o.n)
@@ -194,6 +246,9 @@ func (x *run) op() {
 	case "Set":
 		dst := x.pickObj(nil)
 		src := x.pickObj(nil)
+		if dst == nil || src == nil {
+			return
+		}
 		off := x.arg(dst.n)
 		inRange := off >= 0 && off <= dst.n
 		what := fmt.Sprintf("%s.Set(%s, %d) [dst len %d, src len %d]", dst.name, src.name, off, dst.n, src.n)
@@ -232,6 +287,16 @@ func (x *run) op() {
 		}
 		x.compareAll(sigBase+rangeTag(inRange)+alias, what)
 	case "Grow", "Truncate":
+		if c.Draw(5) == 4 {
+			if v := x.pickObj(func(o *obj) bool { return o.view }); v != nil {
+				arg := []int{2, 0, 1}[c.Draw(3)]
+				if k == "Truncate" {
+					arg = c.Draw(v.n + 1)
+				}
+				x.resizeView(v, k, arg, sigBase)
+				return
+			}
+		}
 		o := x.pickObj(func(o *obj) bool { return !o.view })
 		if o == nil {
 			return
@@ -265,13 +330,16 @@ func (x *run) op() {
 			o.n = len(o.root.data)
 			// views taken before a resize are not used any more: whether they still alias is
 			// implementation specific (reallocation) and outside the model
-			x.invalidateViews(o.root, o)
+			x.invalidateViews(o.root, o, sigBase+rangeTag(inRange), what)
 		} else if x.strict && err == nil {
 			r.Fail("out-of-range-accepted", sigBase+":out-of-range:no-error", fmt.Sprintf("%s with a negative argument returned no error", what))
 		}
 		x.compareAll(sigBase+rangeTag(inRange), what)
 	case "Bytes":
 		o := x.pickObj(nil)
+		if o == nil {
+			return
+		}
 		what := o.name + ".Bytes()"
 		var b []byte
 		x.guard(sigBase, what, func() { b = o.impl.Bytes() })
@@ -285,6 +353,9 @@ func (x *run) op() {
 		x.compareAll(sigBase+":copy-independence", what+" then modifying the returned slice")
 	case "Len":
 		o := x.pickObj(nil)
+		if o == nil {
+			return
+		}
 		var l int
 		x.guard(sigBase, o.name+".Len()", func() { l = o.impl.Len() })
 		r.Logf("%d %s.Len() -> %d", x.step, o.name, l)
